@@ -4,12 +4,21 @@ import json, glob, os, re
 rows=[]
 for d in sorted(glob.glob('/verif/seeded/*/')):
     m=json.load(open(d+'meta.json'))
-    about=re.sub(r'\s+',' ',m.get('what_it_breaks_and_needs','')).strip()
-    about=re.sub(r'^#+\s*','',about)[:230]
+    raw=m.get('what_it_breaks_and_needs','')
+    about=re.sub(r'\s+',' ',raw).strip()
+    about=re.sub(r'^#+\s*','',about)
+    if not re.match(r'[*_`]*MUT\s*[0-9]', about):
+        # the notes section picked up is a preamble: describe the change by its files and first added comment instead
+        diff=open(d+'patch.diff').read()
+        files=re.findall(r'^\+\+\+ b/(\S+)', diff, re.M)
+        cm=[l[1:].strip().lstrip('/').strip() for l in diff.split('\n') if l.startswith('+') and not l.startswith('+++') and l[1:].strip().startswith('//')]
+        about=', '.join(files)+(': '+' '.join(cm[:2]) if cm else '')
+    about=about[:230].replace('|','/')
+    props=sorted(set(re.findall(r'VIOLATION property=(C[0-9]+)', ' '.join(m.get('violations',[])))))
     vs=m.get('violations',[])
     obl=[re.search(r'obligation=\S*?([A-Za-z0-9_.()*$]+#[^ ]+)',v) for v in vs]
     obl=[o.group(1) for o in obl if o][:3]
-    rows.append((os.path.basename(d.rstrip('/')), about, 'yes' if m.get('detected_by_quick_check') else '**no**', ', '.join(obl) if obl else '—'))
+    rows.append((os.path.basename(d.rstrip('/')), about, ('yes ('+', '.join(props)+')' if props else 'yes') if m.get('detected_by_quick_check') else '**no**', ', '.join(obl) if obl else '—'))
 print('| seeded change | what it breaks | caught by quick check | failing obligation(s) |')
 print('|---|---|---|---|')
 for r in rows: print('| %s | %s | %s | %s |'%r)
